@@ -168,7 +168,8 @@ def gen_layout(rng, forced_rootname=None):
         name = "l%d" % i
         rel = wdir + "/" + name
         kind = rng.choice(["rel-in", "rel-out", "abs-in", "abs-out", "dir-in", "dir-out", "dir-out-abs", "dir-base",
-                           "dangling", "loop", "chain", "fsroot", "self-root", "rel-out", "dir-out", "abs-out"])
+                           "dangling", "loop", "chain", "fsroot", "self-root", "rel-out", "dir-out", "abs-out",
+                           "dir-out-sub", "dir-out-sub", "dir-in-sub"])
         if kind == "rel-in":
             t = posixpath.relpath(rn + "/" + rng.choice(in_files), wdir)
         elif kind == "rel-out":
@@ -183,6 +184,10 @@ def gen_layout(rng, forced_rootname=None):
             t = up + rng.choice(sibs)
         elif kind == "dir-out-abs":
             t = "$B/" + rng.choice(sibs)
+        elif kind == "dir-out-sub":
+            t = rng.choice([up, "$B/"]) + rng.choice(sibs) + "/etc"
+        elif kind == "dir-in-sub":
+            t = posixpath.relpath(rn + "/" + rng.choice(["etc/sub", "var/log"]), wdir)
         elif kind == "dir-base":
             t = up.rstrip("/") or "."
         elif kind == "dangling":
@@ -199,6 +204,14 @@ def gen_layout(rng, forced_rootname=None):
             kind, t = "rel-out", up + sibs[0] + "/secret"
         nodes.append(["l", rel, t])
         links.append((rel, kind))
+    # always present: directory links whose parent ('..' AFTER the link) is elsewhere than the link's own parent
+    fixed = [(rn + "/dl_out", "../" + sibs[0] + "/etc", "dir-out-sub"), (rn + "/etc/dl_in", "sub", "dir-in-sub"),
+             (rn + "/dl_chain", "dl_out", "chain-dir"), (rn + "/var/dl_abs", "$B/" + sibs[-1] + "/etc", "dir-out-sub"),
+             ("other/inlink", "../" + rn + "/etc/sub", "out-to-in"), ("other/inlink2", "$B/" + rn + "/var/log", "out-to-in")]
+    for rel, t, kind in fixed:
+        nodes.append(["l", rel, t])
+        if rel.startswith(rn + "/"):
+            links.append((rel, kind))
     return {"rootname": rn, "sibs": sibs, "nodes": nodes, "tokens": tokens, "in_files": in_files, "in_dirs": in_dirs,
             "links": links, "out_files": out_files}
 
@@ -239,6 +252,56 @@ def sub(s, base):
     return s.replace("$B", base).replace("$b", base.lstrip("/"))
 
 
+DIRKINDS = ("dir-in", "dir-out", "dir-out-abs", "dir-base", "self-root", "fsroot", "chain", "chain-dir", "dir-out-sub", "dir-in-sub")
+AFTER_TAILS = ["../secret", "../passwd", "../etc/passwd", "../hosts", "../a.conf", "../deep.conf", "../messages", "../../secret",
+               "../../etc/passwd", "sub/../../passwd", "sub/../../secret", "etc/../../secret", "etc/../secret", "../opt/a.conf",
+               "../etc/hosts", "../log/messages", "../sub/deep.conf", "../my file", "./../secret", "..//secret", "../etc/../secret",
+               "../../opt/b.conf", "../../var/log/messages"]
+
+
+def after_link_family(lay, for_glob=False):
+    """relative paths that traverse a directory symlink and THEN go '..' (the kernel takes the parent of the link's
+    target, a lexical normalisation takes the parent of the link)"""
+    rn, sibs = lay["rootname"], lay["sibs"]
+    fam = []
+    for rel, kind in lay["links"]:
+        if kind not in DIRKINDS:
+            continue
+        if for_glob and kind in ("dir-base", "self-root", "fsroot", "chain"):
+            continue
+        r = rel[len(rn) + 1:]
+        if for_glob:
+            fam += [r + "/../*", r + "/../etc/*", r + "/../s*", r + "/sub/../../*", r + "/../../*/secret"]
+            continue
+        for t in AFTER_TAILS:
+            fam.append(r + "/" + t)
+        for s_ in sibs[:2]:
+            fam.append(r + "/../" + s_ + "/secret")
+            fam.append(r + "/../../" + s_ + "/secret")
+        fam.append(r + "/../" + rn + "/etc/passwd")
+        fam.append(r + "/../../" + rn + "/etc/hosts")
+    if not for_glob:
+        # a link OUTSIDE the root that points inside: out through '..', in through the link, '..' after it
+        fam += ["../other/inlink/../passwd", "../other/inlink/deep.conf", "../other/inlink/../../opt/a.conf",
+                "../other/inlink/../../../" + sibs[0] + "/secret", "../other/inlink2/../../etc/hosts", "../other/inlink2/../log/messages",
+                "../other/inlink2/../../../secret", "etc/../../other/inlink/../hosts"]
+    return fam
+
+
+def gen_after_link(rng, lay, k, base):
+    fam = after_link_family(lay)
+    rn = lay["rootname"]
+    out = []
+    for _ in range(k):
+        r = rng.choice(fam)
+        for _ in range(8):
+            if rng.random() < 0.1 or kloc(os.path.join(base, rn, r)) is not None:
+                break
+            r = rng.choice(fam)
+        out.append(r)
+    return out
+
+
 def gen_requests(rng, lay, k, base=None):
     rn, sibs = lay["rootname"], lay["sibs"]
     reqs = list(lay["in_files"])
@@ -255,13 +318,15 @@ def gen_requests(rng, lay, k, base=None):
              "../" * 25 + "$b/" + rn + "/etc/hosts", "../secret", "etc/../..//" + rn + "/./opt/a.conf",
              "/etc/passwd", "//etc//passwd", "etc/./passwd", "etc/passwd/", "etc/nothing", "etc", "", "..", "../" + s,
              "../rootlink/etc/hosts", "../" + rn + "/../" + s + "/secret", "var/log/../../../" + rn + "/var/log/messages"]
+    fam = after_link_family(lay)
     out = []
     for _ in range(k):
-        r = rng.choice(reqs)
+        pool = fam if (fam and rng.random() < 0.3) else reqs
+        r = rng.choice(pool)
         for _ in range(6):
             if base is None or rng.random() < 0.2 or kloc(os.path.join(base, rn, sub(r, base).lstrip("/"))) is not None:
                 break
-            r = rng.choice(reqs)
+            r = rng.choice(pool)
         out.append(r)
     return out
 
@@ -426,9 +491,12 @@ def gen_factory_case(rng, lay, kind, host, base=None):
     elif kind == "glob_file":
         pats = ["etc/*", "/etc/p*", "*/*", "etc/sub/*", "l*", "l*/*", "../" + sibs[0] + "/*", "etc/../opt/*.conf", "opt/[ab].conf",
                 "*/l*", "etc/my*", "../*/secret", "nothing/*", "../" + rn + "/etc/h*", "var/log/../../../" + rn + "/opt/*"]
+        gfam = after_link_family(lay, for_glob=True)
         if case["rootform"] == "fs":
             # under root "/" a link to "/" would make the glob read whatever lies at the top of the real file system
             pats = [x for x in pats if not x.startswith(("l*", "*/"))]
+        elif gfam:
+            pats = pats + [rng.choice(gfam) for _ in range(len(pats) // 2)]
         case["a"] = [pre + "/" + rng.choice(pats).lstrip("/") for _ in range(rng.randint(1, 3))]
         case["save"] = rng.choice(save_pool)
         case["ignore"] = rng.choice([None, None, "passwd", "conf", "l1"])
@@ -442,6 +510,7 @@ def gen_factory_case(rng, lay, kind, host, base=None):
                  "/etc/%s": ["passwd", "hosts", "my file", "sub/deep.conf", "l0", "l1", "*", "../opt/a.conf", "nothing", "../../" + sibs[0] + "/secret"],
                  "/etc/%s%%": ["passwd", "hosts"],
                  "/%s/*": ["etc", "opt", "..", "etc/sub", "../" + sibs[0]] + ([] if case["rootform"] == "fs" else ["l0", "l1"])}
+        pools["/%s"] = pools["/%s"] + gen_after_link(rng, lay, 8, base) if base else pools["/%s"]
         items = []
         for _ in range(rng.randint(0, 4)):
             if t == "/%s/%s":
@@ -1022,6 +1091,7 @@ def shape(req):
 
 def _run(chk, rng, base, n_layouts, n_val, n_fac, n_ser, n_prim):
     from harness.common import dec
+    n_after = 8 if chk.tier == "quick" else 12
     v_cases, v_impl, v_lines = [], [], []
     f_cases, f_impl, f_lines, f_info = [], [], [], []
     outn = [0]
@@ -1104,6 +1174,11 @@ def _run(chk, rng, base, n_layouts, n_val, n_fac, n_ser, n_prim):
             vcases.append({"op": "validate", "ctx": "host" if host else "archive", "rootform": rng.choice(ROOTFORMS),
                            "deny": gen_deny_files(rng, lay, reqs, [r]) if host else [], "req": r,
                            "kind": rng.choice(["text", "text", "raw"])})
+        for r in gen_after_link(rng, lay, n_after, base):
+            host = rng.random() < 0.5
+            vcases.append({"op": "validate", "ctx": "host" if host else "archive", "rootform": rng.choice(ROOTFORMS),
+                           "deny": [], "req": r, "kind": rng.choice(["text", "raw"])})
+            chk.count("after-link-dotdot:" + ("resolves" if kloc(os.path.join(base, lay["rootname"], r)) else "missing"))
         fcases = []
         for _ in range(n_fac):
             host = rng.random() < 0.7
@@ -1245,6 +1320,7 @@ def _run(chk, rng, base, n_layouts, n_val, n_fac, n_ser, n_prim):
     chk.sample({"mangle": cases[8][1], "impl": impl[8]})
 
     run_apply_blacklist(chk, rng)
+    run_collect_stream(chk, rng, 40 if chk.tier == "quick" else 300)
 
 
 def witness_dotdot(base):
@@ -1346,6 +1422,307 @@ def c06_victim(broker):
     return "x"
 
 
+
+# --------------------------------------------------------------------------- the real entry point: collect.collect()
+
+DEF_FILES = {"hosts": "etc/hosts", "fstab": "etc/fstab", "chrony_conf": "etc/chrony.conf", "os_release": "etc/os-release"}
+DEF_CMDS = {"date": "/bin/date", "date_utc": "/bin/date --utc", "hostname_default": "/bin/hostname", "uptime": "/usr/bin/uptime"}
+OWN_FILES = ["etc/own_a.conf", "etc/own_b.conf", "etc/own_c.conf", "opt/g1.conf", "opt/g2.conf", "var/e1.log", "var/e2.log"]
+
+
+def collect_universe(n):
+    """elements that a run of collect() may collect: id -> (component name, kind, path-or-command)"""
+    reg, imp, dflt = "harness.c06.C06Reg%d" % n, "harness.c06.C06Impl%d" % n, "insights.specs.default.DefaultSpecs."
+    u = {}
+    for k, p in DEF_FILES.items():
+        u["F:" + k] = (dflt + k, "insights.specs.Specs." + k, "file", "/" + p)
+    for k, c in DEF_CMDS.items():
+        u["C:" + k] = (dflt + k, "insights.specs.Specs." + k, "cmd", c)
+    u["F:own_file"] = (imp + ".own_file", reg + ".own_file", "file", "/etc/own_a.conf")
+    u["F:own_glob:g1"] = (imp + ".own_glob", reg + ".own_glob", "file", "/opt/g1.conf")
+    u["F:own_glob:g2"] = (imp + ".own_glob", reg + ".own_glob", "file", "/opt/g2.conf")
+    u["F:own_each:e1"] = (imp + ".own_each", reg + ".own_each", "file", "/var/e1.log")
+    u["F:own_each:e2"] = (imp + ".own_each", reg + ".own_each", "file", "/var/e2.log")
+    u["C:own_cmd"] = (imp + ".own_cmd", reg + ".own_cmd", "cmd", "/bin/echo own_cmd_marker")
+    u["C:own_each_cmd:e1"] = (imp + ".own_each_cmd", reg + ".own_each_cmd", "cmd", "/bin/echo each e1.log")
+    u["C:own_each_cmd:e2"] = (imp + ".own_each_cmd", reg + ".own_each_cmd", "cmd", "/bin/echo each e2.log")
+    u["C:own_args"] = (imp + ".own_args", reg + ".own_args", "cmd", "/bin/echo args xyz")
+    # first_file(["/etc/none", "/etc/own_b.conf", "/etc/own_c.conf"]): the first allowed existing one
+    u["F:own_first:b"] = (imp + ".own_first", reg + ".own_first", "first", "/etc/own_b.conf")
+    u["F:own_first:c"] = (imp + ".own_first", reg + ".own_first", "first", "/etc/own_c.conf")
+    return u
+
+
+def gen_collect_case(rng, n):
+    u = collect_universe(n)
+    comps_pool = sorted(set(v[0] for v in u.values())) + ["insights.no.such.component", "harness.c06.C06Impl%d.items" % n]
+    sym = list(DEF_FILES) + list(DEF_CMDS) + ["not_a_spec_c06"]
+    lit_f = ["/etc/hosts", "/etc/own_a.conf", "/opt/g1.conf", "/var/e2.log", "/etc/own_b.conf", "/etc/own", "/etc/os-release",
+             "/etc/chrony.conf", "/opt", "/etc/own_c.conf", "etc/fstab"]
+    lit_c = ["/bin/date", "/bin/date --utc", "/bin/echo own_cmd_marker", "/bin/echo each e1.log", "/bin/echo", "/bin/echo args",
+             "/usr/bin/uptime", "/bin/hostname", "/bin/ech", "/bin/echo each"]
+    def pick(pool, ks):
+        return sorted(set(rng.choice(pool) for _ in range(rng.choice(ks))))
+    mode = rng.choice(["components", "symbolic", "literal", "mixed", "mixed"])
+    files, cmds, comps_ = [], [], []
+    if mode in ("components", "mixed"):
+        comps_ = pick(comps_pool, [1, 2, 3])
+    if mode in ("symbolic", "mixed"):
+        files += pick(sym, [1, 2])
+        cmds += pick(sym, [0, 1, 2])
+    if mode in ("literal", "mixed"):
+        files += pick(lit_f, [1, 2, 3])
+        cmds += pick(lit_c, [0, 1, 2])
+    return {"op": "collect", "n": n, "files": sorted(set(files)), "commands": sorted(set(cmds)), "components": comps_,
+            "in_manifest": rng.random() < 0.3}
+
+
+def _collect_specs(n):
+    """a fresh SpecSet pair (registry points + implementations over the scratch root), reachable by name"""
+    mod = sys.modules[__name__]
+    reg_name, imp_name = "C06Reg%d" % n, "C06Impl%d" % n
+    pts = {"__module__": __name__}
+    for k in ("own_file", "own_first", "own_cmd", "own_args"):
+        pts[k] = sf.RegistryPoint()
+    for k in ("own_glob", "own_each", "own_each_cmd"):
+        pts[k] = sf.RegistryPoint(multi_output=True)
+    reg = sf.SpecSetMeta(reg_name, (sf.SpecSet,), pts)
+    setattr(mod, reg_name, reg)
+
+    def items(broker):
+        return ["e1.log", "e2.log"]
+
+    def argsrc(broker):
+        return "xyz"
+    items = datasource(HostContext)(items)
+    argsrc = datasource(HostContext)(argsrc)
+    imp = sf.SpecSetMeta(imp_name, (reg,), {
+        "__module__": __name__,
+        "items": items, "argsrc": argsrc,
+        "own_file": sf.simple_file("/etc/own_a.conf", context=HostContext),
+        "own_glob": sf.glob_file("/opt/*.conf", context=HostContext),
+        "own_first": sf.first_file(["/etc/none", "/etc/own_b.conf", "/etc/own_c.conf"], context=HostContext),
+        "own_each": sf.foreach_collect(items, "/var/%s", context=HostContext),
+        "own_cmd": sf.simple_command("/bin/echo own_cmd_marker"),
+        "own_each_cmd": sf.foreach_execute(items, "/bin/echo each %s"),
+        "own_args": sf.command_with_args("/bin/echo args %s", argsrc),
+    })
+    setattr(mod, imp_name, imp)
+    return reg, imp
+
+
+def run_collect_case(base, case):
+    """one real collect.collect() in a scratch directory; returns the observation dict"""
+    from collections import defaultdict
+    import insights.specs.default  # noqa: F401
+    n = case["n"]
+    u = collect_universe(n)
+    work = os.path.join(base, "collect%d" % n)
+    root = os.path.join(work, "root")
+    tok = {}
+    for i, rel in enumerate(sorted(set(list(DEF_FILES.values()) + OWN_FILES))):
+        p = os.path.join(root, rel)
+        os.makedirs(os.path.dirname(p), exist_ok=True)
+        tok["/" + rel] = "CTK%03dX" % i
+        with open(p, "w") as fh:
+            fh.write("line one\nTOKEN %s\nlast\n" % tok["/" + rel])
+    _collect_specs(n)
+    reg, imp = "harness.c06.C06Reg%d" % n, "harness.c06.C06Impl%d" % n
+    configs = [{"name": reg, "enabled": True}, {"name": imp, "enabled": True}]
+    for k in list(DEF_FILES) + list(DEF_CMDS):
+        configs.append({"name": "insights.specs.Specs." + k, "enabled": True})
+        configs.append({"name": "insights.specs.default.DefaultSpecs." + k, "enabled": True})
+    rm_conf = {"files": list(case["files"]), "commands": list(case["commands"]), "components": list(case["components"])}
+    bl = {"files": [], "commands": [], "patterns": [], "keywords": []}
+    if case.get("in_manifest"):
+        bl["files"] = rm_conf.pop("files")
+    manifest = {"version": 0,
+                "client": {"context": {"class": "insights.core.context.HostContext", "args": {"root": root, "timeout": 10}},
+                           "blacklist": bl,
+                           "persist": [{"name": reg, "enabled": True}, {"name": "insights.specs.Specs", "enabled": True}],
+                           "run_strategy": {"name": "serial", "args": {"max_workers": None}}},
+                "plugins": {"default_component_enabled": False, "packages": ["insights.specs.default"], "configs": configs}}
+    pre = "insights.specs.default.DefaultSpecs."
+    names = sorted(set(case["files"] + case["commands"] + case["components"]))
+    specs = [x for x in names if x.isidentifier() and dr.get_component_by_name(pre + x)]
+    known = [x for x in names if dr.get_component_by_name(x)]
+    saved = dict(dr.ENABLED)
+    _AUD["base"] = work
+    _AUD["events"] = []
+    err = None
+    audit(True)
+    try:
+        try:
+            out, _errs = collect.collect(manifest=manifest, tmp_path=work, archive_name="arch", rm_conf=rm_conf, compress=False)
+        except Exception as ex:
+            out, err = os.path.join(work, "arch"), repr(ex)
+    finally:
+        audit(False)
+        clear_deny()
+        en = defaultdict(lambda: True)
+        en.update(saved)
+        dr.ENABLED = en
+    events = list(_AUD["events"])
+    opened = sorted(set("/" + e[1][len(root):].lstrip("/") for e in events if e[0] == "open" and e[1].startswith(root + "/")))
+    execd = sorted(set(" ".join(e[1]) for e in events if e[0] == "popen"))
+    persisted, meta = {}, {}
+    data = os.path.join(out, "data")
+    for f in walk_files(out):
+        try:
+            with open(f, "rb") as fh:
+                persisted[f[len(out):]] = fh.read().decode("utf-8", "replace")
+        except Exception:
+            pass
+    mdir = os.path.join(out, "meta_data")
+    if os.path.isdir(mdir):
+        for f in os.listdir(mdir):
+            try:
+                doc = json.load(open(os.path.join(mdir, f)))
+            except Exception:
+                continue
+            res = doc.get("results") or []
+            res = res if isinstance(res, list) else [res]
+            meta[doc.get("name")] = [r["object"] for r in res]
+    # which elements were collected (opened/executed AND present in the archive's data directory)
+    got = {}
+    for eid, (comp, point, kind, what) in u.items():
+        objs = meta.get(point, [])
+        if kind in ("file", "first"):
+            rel = what.lstrip("/")
+            in_meta = any(o.get("relative_path") == rel for o in objs)
+            in_data = tok[what] in persisted.get("/data/" + rel, "")
+            got[eid] = {"collected": in_meta and in_data, "touched": what in opened,
+                        "leaked": any(tok[what] in c for c in persisted.values())}
+        else:
+            in_meta = any(o.get("cmd") == what for o in objs)
+            ran = any(x == what or x.endswith(" " + what) for x in execd)
+            marker = what[len("/bin/echo "):] if what.startswith("/bin/echo ") else None
+            got[eid] = {"collected": in_meta, "touched": ran,
+                        "leaked": bool(marker) and any(marker in c for f, c in persisted.items() if f.startswith("/data/"))}
+    shutil.rmtree(work, ignore_errors=True)
+    return {"got": got, "specs": specs, "known": known, "error": err, "opened": opened, "execd": execd}
+
+
+def collect_child():
+    """runs in a child interpreter (clean registries): cases on stdin, observations on stdout"""
+    import logging
+    logging.disable(logging.CRITICAL)
+    req = json.load(sys.stdin)
+    base = os.path.realpath(tempfile.mkdtemp(prefix="c06c_"))
+    out = []
+    try:
+        for case in req["cases"]:
+            out.append(run_collect_case(base, case))
+    finally:
+        audit(False)
+        shutil.rmtree(base, ignore_errors=True)
+    sys.stdout.write("\n@@C06" + json.dumps(out) + "\n")
+
+
+def run_collect_cases(cases):
+    import subprocess
+    from harness.common import REPO
+    prog = ("import sys; sys.path[:0] = [%r, %r]; sys.dont_write_bytecode = True; import harness.c06 as m; m.collect_child()"
+            % (VERIF, REPO))
+    p = subprocess.run(["/venv/bin/python", "-c", prog], input=json.dumps({"cases": cases}).encode(), stdout=subprocess.PIPE,
+                       stderr=subprocess.PIPE, cwd=VERIF, timeout=1500)
+    for l in p.stdout.decode("utf-8", "replace").split("\n"):
+        if l.startswith("@@C06"):
+            return json.loads(l[5:])
+    raise RuntimeError("collect child failed: rc=%s\n%s" % (p.returncode, p.stderr.decode("utf-8", "replace")[-3000:]))
+
+
+def collect_expect(case, obs, bl_model, allow_model, baseline):
+    """what the MODEL predicts is collected: not disabled by applyBlacklist, and allowed by the deny sets it produced"""
+    u = collect_universe(case["n"])
+    disabled = set(bl_model[2])
+    exp = {}
+    first_done = False
+    for eid in sorted(u):
+        comp, point, kind, what = u[eid]
+        ok = comp not in disabled and allow_model[eid]
+        if comp.endswith((".own_each", ".own_each_cmd")) and ("harness.c06.C06Impl%d.items" % case["n"]) in disabled:
+            ok = False
+        if kind == "first":
+            ok = ok and not first_done
+            first_done = first_done or ok
+        exp[eid] = ok and baseline.get(eid, False) if kind != "first" else ok
+    return exp
+
+
+def collect_oracle(case, obs):
+    """ORACLE (B) through the real entry point: nothing the user denied is opened / executed / persisted"""
+    u = collect_universe(case["n"])
+    pre = "insights.specs.default.DefaultSpecs."
+    fails = []
+    for eid, (comp, point, kind, what) in u.items():
+        g = obs["got"][eid]
+        short = comp[len(pre):] if comp.startswith(pre) else None
+        why = None
+        if comp in case["components"]:
+            why = "component %s is listed under components" % comp
+        elif short and (short in case["files"] or short in case["commands"]):
+            why = "the spec's symbolic name %r is listed" % short
+        elif kind in ("file", "first") and oracle_denied(what, case["files"]):
+            why = "file %r matches the deny list %r" % (what, case["files"])
+        elif kind == "cmd" and oracle_denied(what, case["commands"]):
+            why = "command %r matches the deny list %r" % (what, case["commands"])
+        if why and (g["collected"] or g["touched"] or g["leaked"]):
+            fails.append("collect(): %s, yet it was %s" % (why, "/".join(k for k in ("touched", "collected", "leaked") if g[k])
+                                                           .replace("touched", "opened" if kind != "cmd" else "executed")
+                                                           .replace("leaked", "found in the archive").replace("collected", "persisted")))
+    return fails
+
+
+def run_collect_stream(chk, rng, n_cases):
+    from harness.common import dec
+    cases = [{"op": "collect", "n": 0, "files": [], "commands": [], "components": [], "in_manifest": False}]
+    cases += [gen_collect_case(rng, i + 1) for i in range(n_cases)]
+    obs = run_collect_cases(cases)
+    baseline = dict((k, v["collected"]) for k, v in obs[0]["got"].items())
+    chk.extra["collect_baseline"] = sorted(k for k, v in baseline.items() if v)
+    want_base = set(k for k in baseline if not k.startswith("F:own_first:c"))
+    if obs[0]["error"] or len([k for k in want_base if baseline[k]]) < len(want_base) - 3:
+        chk.tie_broken("collect-baseline", "collect() with an empty deny list collected only %r (%s)"
+                       % (chk.extra["collect_baseline"], obs[0]["error"]), cases[0])
+    lines = []
+    for case, o in zip(cases, obs):
+        u = collect_universe(case["n"])
+        lines.append("bl\t%s\t%s\t%s\t%s\t%s" % (enc_strs(case["files"]), enc_strs(case["commands"]), enc_strs(case["components"]),
+                                                 enc_strs(o["specs"]), enc_strs(o["known"])))
+    bl_out = run_driver("C06", lines)
+    bls = []
+    for m in bl_out:
+        a, b, c = m.split(" ")
+        bls.append(tuple(sorted(set(dec(x) for x in f.split(","))) if f != "-" else [] for f in (a, b, c)))
+    lines, idx = [], []
+    for ci, case in enumerate(cases):
+        u = collect_universe(case["n"])
+        for eid in sorted(u):
+            kind, what = u[eid][2], u[eid][3]
+            d = bls[ci][0] if kind in ("file", "first") else bls[ci][1]
+            lines.append("deny\t%s\t%s" % (enc(what), enc_strs(d)))
+            idx.append((ci, eid))
+    al = run_driver("C06", lines)
+    allow = [dict() for _ in cases]
+    for (ci, eid), m in zip(idx, al):
+        allow[ci][eid] = m == "1"
+    impl, model = [], []
+    for ci, (case, o) in enumerate(zip(cases, obs)):
+        exp = collect_expect(case, o, bls[ci], allow[ci], baseline)
+        impl.append(sorted(k for k, v in o["got"].items() if v["collected"]))
+        model.append(sorted(k for k, v in exp.items() if v))
+        for desc in collect_oracle(case, o):
+            chk.failure(desc, case)
+        if o["error"]:
+            chk.count("collect:error")
+        chk.case(("collect", tuple(case["files"]), tuple(case["commands"]), tuple(case["components"])),
+                 nontrivial=impl[-1] != impl[0])
+        chk.count("collect:denied-elements:%d" % min(5, len(impl[0]) - len(impl[-1])))
+    chk.compare("collect()(collected elements)", cases, impl, model)
+    chk.sample({"collect": {k: cases[1][k] for k in ("files", "commands", "components")}, "collected": impl[1]})
+
+
 # --------------------------------------------------------------------------- replay
 
 def replay(data):
@@ -1377,6 +1754,13 @@ def replay(data):
             os.makedirs(out)
             ans, line, fails = run_ser(base, c, out)
             print("implementation:", ans)
+        elif op == "collect":
+            base_case = {"op": "collect", "n": 0, "files": [], "commands": [], "components": [], "in_manifest": False}
+            obs = run_collect_cases([base_case, c])
+            print("collected without a deny list:", sorted(k for k, v in obs[0]["got"].items() if v["collected"]))
+            print("collected with it:            ", sorted(k for k, v in obs[1]["got"].items() if v["collected"]))
+            print("opened:", obs[1]["opened"], "executed:", obs[1]["execd"])
+            fails = [(d, c, None) for d in collect_oracle(c, obs[1])]
         elif op == "mangle":
             m = mangle_command(c["cmd"])
             print("mangle_command ->", repr(m))
